@@ -20,6 +20,7 @@ EXPLANATION = (
 RULES = {
     "C15.LOCK": "lockset: lexical `with self._lock` enclosure of every self._inner access in the wrapper classes",
     "C15.CLOCK": "effect query: no wall-clock call in engine/cache.py bodies; TTL comparisons slice to the injected _time",
+    "C15.TTL": "must-pass: every path storing a caller-supplied value into a TTL container reads the injected clock for its timestamp",
     "C15.EVICT": "post-dominance of the eviction loop over growing inserts (callee summaries) + LRU-end discipline",
     "C15.ACCT": "paired accounting of LRUBytes._bytes with _map mutations; clear() completeness; disabled short-circuit",
     "C15.MERGE": "sorted iteration of workers and keys; conflict branch shape",
@@ -119,6 +120,61 @@ def rule_clock(ctx) -> None:
                           f"TTL test `{txt}` does not derive `now` from the injected clock")
     ctx.floor("C15.CLOCK", "TTL comparisons", n_ttl, 3)
     ctx.holds("C15.CLOCK", f"{CACHE}/no-wall-clock", "clematis/engine/cache.py", "no direct wall-clock call in any function body (time.time only as a default argument)")
+
+
+# -------------------------------------------------------------------- TTL
+def rule_ttl_stamp(ctx) -> None:
+    """Expiry is measured from the time a value was stored: in every TTL
+    container each path that stores a caller-supplied value (a new entry or an
+    in-place overwrite of an existing entry's value) must take a fresh
+    timestamp from the injected clock on that same path."""
+    m = ctx.prog.module(CACHE)
+    n_sites = 0
+    for cname in m.classes:
+        meths = ctx.prog.methods(f"{CACHE}:{cname}")
+        init = meths.get("__init__")
+        if init is None or not any(_self_attr(x, "_ttl") for x in ast.walk(init.node)) or not any(_self_attr(x, "_time") for x in ast.walk(init.node)):
+            continue
+        # only containers that hold entries themselves (a `_d`-style map of timestamped entries)
+        for mname, fn in meths.items():
+            if mname.startswith("__") or "value" not in fn.params:
+                continue
+            cfg = ctx.cfg(fn)
+            stores = []
+            clock = []
+            for n in cfg.nodes:
+                if n.kind != "stmt" or n not in cfg.reachable_from_entry():
+                    continue
+                a = n.ast
+                has_clock = any(isinstance(c.func, ast.Attribute) and c.func.attr == "_time" for c in node_calls(n))
+                if has_clock:
+                    clock.append(n)
+                if isinstance(a, (ast.Assign, ast.AnnAssign)) and a.value is not None:
+                    tg = a.targets if isinstance(a, ast.Assign) else [a.target]
+                    uses_value = any(isinstance(x, ast.Name) and x.id == "value" for x in ast.walk(a.value))
+                    into_obj = any(isinstance(t, (ast.Attribute, ast.Subscript)) for t in tg)
+                    if uses_value and into_obj:
+                        stores.append(n)
+            delegating = [c for n in cfg.nodes for c in node_calls(n) if call_tail(c) in ("set", "put") and any(isinstance(x, ast.Name) and x.id == "value" for x in ast.walk(c))]
+            if not stores:
+                if delegating:
+                    continue  # stores through another container's set(): that container is checked itself
+                continue
+            for sn in stores:
+                n_sites += 1
+                key = f"{fn.qual}/value-store-stamped:{src(sn.ast)[:40]}"
+                if sn in clock:
+                    ctx.holds("C15.TTL", key, fn.loc(sn.ast), "the value is stored together with a timestamp read from the injected clock")
+                    continue
+                before = cfg.path([cfg.entry], lambda n: n is sn, avoid=lambda n: n in clock)
+                after = cfg.path([sn], lambda n: n is cfg.exit, avoid=lambda n: n in clock and n is not sn, edge_ok=no_exc)
+                ok = before is None or after is None
+                ctx.check(ok, "C15.TTL", key, fn.loc(sn.ast),
+                          "every path through this value store also refreshes the entry timestamp from the injected clock",
+                          "a caller-supplied value is stored on a path that never reads the injected clock: the entry keeps a stale "
+                          "timestamp, so a freshly written value expires early (or late)",
+                          ctx.path_witness(fn, (before or []) + (after or [])[1:]))
+    ctx.floor("C15.TTL", "value stores in TTL containers", n_sites, 1)
 
 
 # ------------------------------------------------------------------ EVICT
@@ -421,6 +477,7 @@ def rule_merge(ctx) -> None:
 def run(ctx) -> None:
     rule_lock(ctx)
     rule_clock(ctx)
+    rule_ttl_stamp(ctx)
     rule_evict(ctx)
     rule_acct(ctx)
     rule_merge(ctx)
